@@ -20,6 +20,7 @@
 #include "exec.h"
 
 const char *vf_tmpdir = "/tmp";
+char vf_tooldir[400] = ".";
 struct obj objs[MAXOBJ];
 
 /* ---------- helpers ---------- */
@@ -81,6 +82,7 @@ struct obj *newobj(const char *ids, int kind)
 int main(int argc, char **argv)
 {
 	if (argc > 1) vf_tmpdir = argv[1];
+	{ char *sl = strrchr(argv[0], '/'); if (sl) { size_t l = sl - argv[0]; if (l < sizeof vf_tooldir) { memcpy(vf_tooldir, argv[0], l); vf_tooldir[l] = 0; } } }
 	setvbuf(stdout, NULL, _IOLBF, 0);
 	char *line = NULL; size_t cap = 0; ssize_t n;
 	while ((n = getline(&line, &cap, stdin)) > 0) {
@@ -94,7 +96,7 @@ int main(int argc, char **argv)
 		if (r < 0) r = ops_codec(args, na);
 		if (r < 0 && !strncmp(args[0], "m.", 2)) r = ops_merger(args, na);
 		if (r < 0 && !strncmp(args[0], "fs.", 3)) r = ops_fileset(args, na);
-		if (r < 0 && (!strncmp(args[0], "cz.", 3) || !strncmp(args[0], "wa.", 3) || !strncmp(args[0], "res.", 4))) r = ops_misc(args, na);
+		if (r < 0 && (!strncmp(args[0], "cz.", 3) || !strncmp(args[0], "wa.", 3) || !strncmp(args[0], "tool.", 5) || !strncmp(args[0], "rv.", 3) || !strncmp(args[0], "res.", 4))) r = ops_misc(args, na);
 		if (r < 0 && (!strncmp(args[0], "s.", 2) || !strncmp(args[0], "sys.", 4))) r = ops_sorter(args, na);
 		if (r < 0) puts("bad-op");
 		fflush(stdout);
